@@ -43,6 +43,17 @@ CHECKS = {
             "quick tier) and TLC accepts a line only for OK-and-all-finite or an explicit rejection.",
             "Trusted: TLC, numpy.isfinite. Kinematics sampled (two x per cell). Known findings listed in known_findings.json.",
             "DESIGN.md 7/C16"),
+    "C14": ("model_checking",
+            "TLC exhaustive on RunLoop.tla (runner/cache/memo state machine, all plans of a small kinematic universe) + trace validation "
+            "of recorded real Runner executions against RunLoop with a cross-run digest map",
+            "TLC checks SlotsIdeal, CacheCoherent, AllFilledAtReturn, SlotsStable on every plan (observable order, duplicates, repeated Q2, "
+            "dict field order, TMC modes 0-3, cross sections, two get_result calls) of a universe in which TMC look-ups collide with user "
+            "requests; a negative control (cache key by dict order) must produce TLC's counterexample. Real executions of seeded plans are "
+            "recorded at call boundaries and validated by Trace_C14: each step must be a RunLoop step (cache hits, drops, computations - "
+            "departures are conformance notes) and, as the verdict, the sha1 of every returned tensor must be a function of the "
+            "history-free ideal term of its request across all recorded runs.",
+            "Trusted: TLC, sha1, eko is_below_x for the header. The continuum of kinematics is represented by a universe of ~40 x values "
+            "and 4 Q2 values chosen to collide.", "DESIGN.md 7/C14"),
 }
 
 PENDING = {}
